@@ -36,9 +36,18 @@ Print Assumptions c15_roundtrip_without_uniform_flags_refuted.
    the assignment through the name / alias tables (identity when there is no entry) and the
    confidence (conf = 0: bootstrapping_probability, 1: avg_correlation) rounded to four decimals --
    unless the level's readable name contains 'label', 'name', 'alias' or 'assignment' (categ):
-   then the value is written unrounded (finding F12). *)
+   then the value is written unrounded (finding F12).
+   A column is named after the READABLE level name rl = level_to_name(level) (blob_to_df builds the
+   column names from it), so the statement needs the readable names of the hierarchy to be pairwise
+   distinct: TaxonomyTree accepts a hierarchy_mapper that sends two levels to one name, and then the
+   later level overwrites the columns of the earlier (c15_csv_duplicate_readable_level_refuted, F31).
+   The numbers of the model are exact fractions: a NaN confidence is outside it.  A probability is a
+   ratio of vote counts, never NaN; avg_correlation is NaN only when the expression data hold a NaN
+   (the constant-row convention of distance_utils gives 0, not NaN); the real writer prints an empty
+   field for it (harness: c15 nan stream). *)
 Theorem c15_csv_rows : forall nm hier meta algo conf sticky categ b c,
   (conf < 2)%nat ->
+  NoDup (map (level_to_name nm) hier) ->
   blob_to_csv nm hier meta algo conf sticky categ b = Ok c ->
   v_comments c = csv_header nm hier meta algo /\
   length (v_rows c) = length b /\
@@ -47,14 +56,33 @@ Theorem c15_csv_rows : forall nm hier meta algo conf sticky categ b c,
     csv_get c row KId = Some (CName (c_id cl)) /\
     forall j level l,
       nth_error hier j = Some level -> nth_error (c_levels cl) j = Some l ->
-      csv_get c row (KLabel j) = Some (CName (l_assign l)) /\
-      csv_get c row (KName j) = Some (CName (label_to_name nm level (l_assign l) false)) /\
+      let rl := level_to_name nm level in
+      csv_get c row (KLabel rl) = Some (CName (l_assign l)) /\
+      csv_get c row (KName rl) = Some (CName (label_to_name nm level (l_assign l) false)) /\
       (S j = length hier ->
-         csv_get c row (KAlias j) = Some (CName (label_to_name nm level (l_assign l) true))) /\
-      csv_get c row (KField j conf) =
-        Some (if nth j categ false then CNumFull (conf_value conf l) else CNum4 (fmt4 (conf_value conf l))).
+         csv_get c row (KAlias rl) = Some (CName (label_to_name nm level (l_assign l) true))) /\
+      csv_get c row (KField rl conf) =
+        Some (if zmem rl categ then CNumFull (conf_value conf l) else CNum4 (fmt4 (conf_value conf l))).
 Proof. exact csv_rows. Qed.
 Print Assumptions c15_csv_rows.
+
+(* F31 -- the NoDup hypothesis is necessary, and the real code behaves like this: hierarchy [7; 8],
+   hierarchy_mapper {7: 70, 8: 70} (accepted by TaxonomyTree); one cell assigned to node 1 (p = 0.37)
+   at level 7 and node 11 (p = 0.25) at level 8.  The CSV has the five columns cell_id, 70_label,
+   70_name, 70_bootstrapping_probability, 70_alias (the alias column AFTER the confidence: the keys of a
+   Python dict keep the position of their first insertion) and the single row 100, 11, 11, 0.2500, 11:
+   level 7 (node 1, 0.37) is gone. *)
+Theorem c15_csv_duplicate_readable_level_refuted :
+  exists c row,
+    map (level_to_name dup_nm) [7; 8] = [70; 70] /\
+    blob_to_csv dup_nm [7; 8] None 0 0 [] [] dup_blob = Ok c /\
+    v_cols c = [KId; KLabel 70; KName 70; KField 70 0; KAlias 70] /\
+    v_rows c = [row] /\ row = [CName 100; CName 11; CName 11; CNum4 2500; CName 11] /\
+    nth_error [7; 8] 0 = Some 7 /\
+    csv_get c row (KLabel (level_to_name dup_nm 7)) <> Some (CName 1) /\
+    csv_get c row (KField (level_to_name dup_nm 7) 0) <> Some (CNum4 (fmt4 (37, 100))).
+Proof. exact csv_duplicate_readable_level. Qed.
+Print Assumptions c15_csv_duplicate_readable_level_refuted.
 
 (* "to four decimals": the printed number is within half a unit of the fourth decimal of the
    JSON value n/d *)
@@ -68,7 +96,7 @@ Print Assumptions c15_four_decimals.
 Theorem c15_csv_confidence_four_decimals_refuted :
   exists nm hier conf sticky categ b c row,
     blob_to_csv nm hier None 0 conf sticky categ b = Ok c /\ nth_error (v_rows c) 0 = Some row /\
-    csv_get c row (KField 0 conf) = Some (CNumFull (1, 3)).
+    csv_get c row (KField 7 conf) = Some (CNumFull (1, 3)).
 Proof. exact csv_confidence_not_rounded_on_categorical_level. Qed.
 Print Assumptions c15_csv_confidence_four_decimals_refuted.
 
@@ -106,11 +134,15 @@ Example c15_example_roundtrip :
 Proof. vm_compute. reflexivity. Qed.
 Example c15_example_csv :
   exists c, blob_to_csv (mkNaming (Some [(7, 70)]) (Some [(8, [(11, (Some 110, None))])])) [7; 8] (Some 5) 2 0
-                        [false; false] [false; false] ex_blob = Ok c /\
-            v_cols c = [KId; KLabel 0; KName 0; KField 0 0; KLabel 1; KName 1; KAlias 1; KField 1 0] /\
+                        [] [] ex_blob = Ok c /\
+            NoDup (map (level_to_name (mkNaming (Some [(7, 70)]) None)) [7; 8]) /\
+            v_cols c = [KId; KLabel 70; KName 70; KField 70 0; KLabel 8; KName 8; KAlias 8; KField 8 0] /\
             nth_error (v_rows c) 0 =
               Some [CName 100; CName 1; CName 1; CNum4 3700; CName 11; CName 110; CName 11; CNum4 3700].
-Proof. eexists. vm_compute. repeat split; reflexivity. Qed.
+Proof.
+  eexists. split; [vm_compute; reflexivity|]. split; [|split; vm_compute; reflexivity].
+  vm_compute. repeat constructor; cbn; intuition discriminate.
+Qed.
 Example c15_example_fmt4 : fmt4 (3, 32) = 938 /\ fmt4 (1, 32) = 312 /\ fmt4 (-1, 10000000) = 0.
 Proof. vm_compute. repeat split; reflexivity. Qed.
 Example c15_example_tree :
@@ -121,23 +153,43 @@ Proof. vm_compute. reflexivity. Qed.
 (* ------------------------------------------------------------------------------------------------
    The TEXT of the CSV file (Model/CsvText.v): what `DataFrame.to_csv(index=False,
    float_format='%.4f')` writes for a table of string fields (Python 3.12 csv.writer, QUOTE_MINIMAL)
-   and what `pandas.read_csv(path, comment='#')` -- the call docs/output.md and the example
-   notebooks give -- makes of it (the C tokenizer, state by state).  A string is a list of code
-   points, ANY integers; a table a list of rows (the header line is the first row). *)
+   and how the TOKENIZER of pandas' C parser splits it back into fields (state by state) -- i.e. what
+   `pandas.read_csv(path, comment='#', dtype=str, keep_default_na=False)` returns.  The example notebooks
+   (explore_mapping_results.ipynb, full_mapping_pipeline.ipynb) read the file with
+   `pd.read_csv(path, comment='#')`; docs/output.md describes the file and names no reader.  With those
+   pandas DEFAULTS every column is afterwards type-inferred: the labels 'NA', 'None', '007', '1e5' come
+   back as nan, nan, 7.0, 100000.0 (observed).  That inference is the choice of whoever calls the reader
+   and is no statement about what the CSV holds (the text of C15); it is not modelled and not judged
+   (ctx.assumptions).  A string is a list of code points; a table a list of rows (the header line is
+   the first row). *)
 From CTM Require Import Model.CsvText Proofs.CsvTextP.
 
-(* The reader undoes the writer, for every table of strings whatsoever except (well_shaped false):
+(* The reader undoes the writer, for every table of strings except (well_shaped false):
    - a field that contains a carriage return (13) but none of comma, double quote, line feed: the
      writer leaves it unquoted and every reader takes the carriage return for a line end
      (c15_csv_carriage_return_refuted);
    - a row without any field (a DataFrame without columns), and a ONE-column row whose field
-     consists of blanks / tabs only (a blank line to the reader; the mapper's CSV has >= 3 columns).
-   Empty fields, leading / trailing blanks, commas, quotes, line feeds, '#', NUL, any code point
-   are covered. *)
+     consists of blanks / tabs only (a blank line to the reader; the mapper's CSV has >= 3 columns);
+   - a row whose FIRST field (the cell id) starts with a blank / tab and is not quoted: the real tokenizer
+     re-reads such a line from its buffer and loses the blanks that lie before a 262144-byte chunk
+     boundary (finding F32, shown by the harness on a file > 256 KiB); on the tables admitted here the
+     tokenizer never looks back, so the statement holds wherever the chunk boundaries fall
+     (c15_csv_row_text_starts_nonblank);
+   - a code point that is not a Unicode scalar value (a surrogate: the writer raises
+     UnicodeEncodeError) or is NUL (the C reader cuts the field: 'a\x00b' reads as 'a').
+   Empty fields, trailing blanks, leading blanks of later fields, commas, quotes, line feeds, '#', every
+   other code point are covered. *)
 Theorem c15_csv_text_roundtrip : forall rows,
   well_shaped false rows = true -> csv_parse false (csv_text rows) = Some rows.
 Proof. exact csv_roundtrip. Qed.
 Print Assumptions c15_csv_text_roundtrip.
+
+(* the text of an admitted row does not start with a blank: the WHITESPACE_LINE state of the tokenizer --
+   the only one that looks back into the buffer -- is not entered at the start of a row *)
+Theorem c15_csv_row_text_starts_nonblank : forall cm r,
+  row_ok cm r = true -> match csv_row r with c :: _ => is_blank c = false | [] => False end.
+Proof. exact row_text_starts_nonblank. Qed.
+Print Assumptions c15_csv_row_text_starts_nonblank.
 
 (* hence the file determines the table: two different well-shaped tables never give the same text *)
 Theorem c15_csv_text_injective : forall r1 r2,
@@ -217,11 +269,119 @@ Theorem c15_fmt4_unit_interval : forall m e,
 Proof. exact fmt4k_unit. Qed.
 Print Assumptions c15_fmt4_unit_interval.
 
-(* the printed text (digits, '.', exactly four digits) reads back as the number *)
-Theorem c15_fmt4_digits_roundtrip : forall m e,
-  0 <= m -> parse_fixed4 (fmt4_text false m e) = Some (fmt4k m e).
-Proof. exact fmt4_text_roundtrip. Qed.
+(* the printed text (optional '-', digits, '.', exactly four digits) reads back as the number, for both
+   signs: x = (-1)^neg * m * 2^e.  avg_correlation can be negative; '-0.0000' (printed for -0.0 and for
+   negative values above -0.00005) reads as 0 *)
+Theorem c15_fmt4_digits_roundtrip : forall neg m e,
+  0 <= m -> parse_fixed4 (fmt4_text neg m e) = Some (if neg then - fmt4k m e else fmt4k m e).
+Proof. exact fmt4_text_roundtrip_signed. Qed.
 Print Assumptions c15_fmt4_digits_roundtrip.
+
+(* ------------------------------------------------------------------------------------------------
+   The two halves joined: the FILE of a blob.  blob_to_csv_text = the comment lines with their content
+   (' metadata = <file name>', ' taxonomy hierarchy = <json.dumps(hierarchy)>', the readable hierarchy when
+   it differs, the version line "[ algorithm: '...';] codebase: <repo>; version: <version>") followed by
+   csv_text of the table of strings whose header holds the column names '<readable level>_label' ... and
+   whose cells are the names behind the integers, 'True' / 'False', '' for a missing value and fmt4_rat_text
+   (the '%.4f' text) of the confidence.  Tied byte for byte to the file the real blob_to_csv writes
+   (harness tag 1555). *)
+
+(* fmt4_rat_text on a double that is not the negative zero is what '%.4f' prints (fmt4_text) ... *)
+Theorem c15_fmt4_rat_text_is_percent_4f : forall (neg : bool) (m e : Z),
+  (if neg then 0 < m else 0 <= m) ->
+  fmt4_rat_text (dyadic (if neg then - m else m) e) = fmt4_text neg m e.
+Proof. exact fmt4_rat_text_dyadic. Qed.
+Print Assumptions c15_fmt4_rat_text_is_percent_4f.
+
+(* ... and reads back as the JSON value to four decimals (fmt4 x is the number c15_four_decimals bounds) *)
+Theorem c15_csv_confidence_text_reads_four_decimals : forall x : rat,
+  0 < snd x -> parse_fixed4 (fmt4_rat_text x) = Some (fmt4 x).
+Proof. exact fmt4_rat_text_parse. Qed.
+Print Assumptions c15_csv_confidence_text_reads_four_decimals.
+
+(* Parsing the file of a blob (reader with comment='#') gives back the table of strings, and in that table
+   the cells under the id / label / name / alias / confidence columns of every record are the strings of the
+   JSON assignments through the name tables and the '%.4f' text of the JSON confidence.
+   Hypotheses beyond c15_csv_rows: the comment bodies contain no line feed / carriage return (json.dumps
+   escapes them in level names; the metadata FILE NAME could hold one) and the table is well_shaped for a
+   reader with comment='#' (computable; c15_example_file). *)
+Theorem c15_csv_text_of_blob_roundtrip :
+  forall names reprs repo version nm hier meta algo conf sticky categ b text,
+  (conf < 2)%nat ->
+  NoDup (map (level_to_name nm) hier) ->
+  blob_to_csv_text names reprs repo version nm hier meta algo conf sticky categ b = Ok text ->
+  exists cols rows,
+    let bodies := csv_comment_bodies names repo version nm hier meta algo in
+    let table := map (col_name names conf) cols :: rows in
+    text = csv_file bodies table /\
+    (forallb comment_ok bodies = true -> well_shaped true table = true -> csv_parse true text = Some table) /\
+    length rows = length b /\
+    forall i cl row,
+      nth_error b i = Some cl -> nth_error rows i = Some row ->
+      tget cols row KId = Some (name_str names (c_id cl)) /\
+      forall j level l,
+        nth_error hier j = Some level -> nth_error (c_levels cl) j = Some l ->
+        let rl := level_to_name nm level in
+        tget cols row (KLabel rl) = Some (name_str names (l_assign l)) /\
+        tget cols row (KName rl) = Some (name_str names (label_to_name nm level (l_assign l) false)) /\
+        (S j = length hier ->
+           tget cols row (KAlias rl) = Some (name_str names (label_to_name nm level (l_assign l) true))) /\
+        tget cols row (KField rl conf) =
+          Some (if zmem rl categ
+                then match rassoc (conf_value conf l) reprs with Some s => s | None => [] end
+                else fmt4_rat_text (conf_value conf l)).
+Proof. exact csv_text_of_blob. Qed.
+Print Assumptions c15_csv_text_of_blob_roundtrip.
+
+(* non-vacuity: the file of ex_blob.  names: 7 'L7', 8 'L8', 70 'cls', 100 'c0', 101 ' c,1' (leading blank
+   AND a comma: quoted, so admitted), 1 'A', 2 'B', 11 'a1', 110 'a one', 13 'b' DQUOTE '3', 5 'o.json' *)
+Definition ex_names : list (Z * str) :=
+  [(7, [76; 55]); (8, [76; 56]); (70, [99; 108; 115]); (100, [99; 48]); (101, [32; 99; 44; 49]);
+   (1, [65]); (2, [66]); (11, [97; 49]); (110, [97; 32; 111; 110; 101]); (13, [98; 34; 51]);
+   (5, [111; 46; 106; 115; 111; 110])].
+Definition ex_nm : naming := mkNaming (Some [(7, 70)]) (Some [(8, [(11, (Some 110, None))])]).
+Definition ex_file_table : list (list str) :=
+  Eval vm_compute in match blob_to_csv_table ex_names [] ex_nm [7; 8] 1 [] [] ex_blob with Ok t => t | Err _ => [] end.
+Definition ex_file_text : str :=
+  Eval vm_compute in
+    match blob_to_csv_text ex_names [] [114] [49; 46; 51] ex_nm [7; 8] (Some 5) 2 1 [] [] ex_blob with
+    | Ok t => t | Err _ => [] end.
+Example c15_example_file :
+  blob_to_csv_text ex_names [] [114] [49; 46; 51] ex_nm [7; 8] (Some 5) 2 1 [] [] ex_blob = Ok ex_file_text /\
+  blob_to_csv_table ex_names [] ex_nm [7; 8] 1 [] [] ex_blob = Ok ex_file_table /\
+  forallb comment_ok (csv_comment_bodies ex_names [114] [49; 46; 51] ex_nm [7; 8] (Some 5) 2) = true /\
+  well_shaped true ex_file_table = true /\
+  csv_parse true ex_file_text = Some ex_file_table /\
+  nth_error ex_file_table 2 =
+    Some [[32; 99; 44; 49]; [66]; [66]; [45; 48; 46; 50; 53; 48; 48]; [98; 34; 51]; [98; 34; 51];
+          [98; 34; 51]; [45; 48; 46; 50; 53; 48; 48]].
+Proof. repeat split; vm_compute; reflexivity. Qed.
+(* the comment lines of that file: '# metadata = o.json', '# taxonomy hierarchy = ["L7", "L8"]',
+   '# readable taxonomy hierarchy = ["cls", "L8"]', "# algorithm: 'hierarchical'; codebase: r; version: 1.3" *)
+Example c15_example_comment_bodies :
+  csv_comment_bodies ex_names [114] [49; 46; 51] ex_nm [7; 8] (Some 5) 2 =
+    [ [32; 109; 101; 116; 97; 100; 97; 116; 97; 32; 61; 32; 111; 46; 106; 115; 111; 110];
+      [32; 116; 97; 120; 111; 110; 111; 109; 121; 32; 104; 105; 101; 114; 97; 114; 99; 104; 121; 32; 61; 32;
+       91; 34; 76; 55; 34; 44; 32; 34; 76; 56; 34; 93];
+      [32; 114; 101; 97; 100; 97; 98; 108; 101; 32; 116; 97; 120; 111; 110; 111; 109; 121; 32; 104; 105; 101; 114;
+       97; 114; 99; 104; 121; 32; 61; 32; 91; 34; 99; 108; 115; 34; 44; 32; 34; 76; 56; 34; 93];
+      [32; 97; 108; 103; 111; 114; 105; 116; 104; 109; 58; 32; 39; 104; 105; 101; 114; 97; 114; 99; 104; 105; 99;
+       97; 108; 39; 59; 32; 99; 111; 100; 101; 98; 97; 115; 101; 58; 32; 114; 59; 32; 118; 101; 114; 115; 105;
+       111; 110; 58; 32; 49; 46; 51] ].
+Proof. vm_compute. reflexivity. Qed.
+(* json.dumps escapes: DQUOTE, backslash, line feed, e-acute (233 -> \u00e9), U+1D4B3 (-> \ud835\udcb3) *)
+Example c15_example_json_str :
+  json_str [34; 92; 10; 233; 119987] =
+    [34; 92; 34; 92; 92; 92; 110; 92; 117; 48; 48; 101; 57; 92; 117; 100; 56; 51; 53; 92; 117; 100; 99; 98; 51; 34].
+Proof. vm_compute. reflexivity. Qed.
+(* the excluded code points and the excluded first field *)
+Example c15_example_excluded :
+  row_ok false [[97; 0; 98]; [120]] = false /\ row_ok false [[97; 55296; 98]; [120]] = false /\
+  row_ok false [[32; 99]; [120]] = false /\ row_ok false [[120]; [32; 99]] = true /\
+  row_tok false [[32; 99]; [120]] = true /\
+  parse_fixed4 (fmt4_text true 1 (-5)) = Some (-312) /\ parse_fixed4 (fmt4_text true 0 0) = Some 0 /\
+  fmt4_text true 0 0 = [45; 48; 46; 48; 48; 48; 48] /\ fmt4_rat_text (-1, 10000000) = [45; 48; 46; 48; 48; 48; 48].
+Proof. vm_compute. repeat split; reflexivity. Qed.
 
 (* non-vacuity: a header and two rows with a comma, doubled quotes, a line feed, an empty field,
    leading / trailing blanks, a carriage return inside a quoted field, non-ASCII, and (for the
